@@ -35,17 +35,17 @@ impl Workbook {
         let defined_names = self
             .defined_names
             .iter()
-            .map(|dn| {
-                let index = dn
-                    .sheet_id
-                    .and_then(|sheet_id| {
-                        // returns an Option<usize>
-                        sheet_id_index.iter().position(|&x| x == sheet_id)
-                    })
-                    // convert Option<usize> to Option<u32>
-                    .map(|pos| pos as u32);
+            .filter_map(|dn| {
+                let index = match dn.sheet_id {
+                    // A name local to a sheet that has been deleted is not visible
+                    // (it is not a global name); it comes back if the deletion is undone.
+                    Some(sheet_id) => {
+                        Some(sheet_id_index.iter().position(|&x| x == sheet_id)? as u32)
+                    }
+                    None => None,
+                };
 
-                (dn.name.clone(), index, dn.formula.clone())
+                Some((dn.name.clone(), index, dn.formula.clone()))
             })
             .collect::<Vec<_>>();
         defined_names
